@@ -52,6 +52,24 @@
                                        every copy carries that number in byte 4
   * `probe_reuses_seq_asShipped_counterexample`
                                      — as shipped the probe goes out with the number of the request before it
+  * `source_state_writers`           — read from the three modules on every run (Gen/IfaceState04.lean): an attribute
+                                       named next_sequence_number is stored by `__init__` and `_inc_sequence_number`
+                                       ONLY, `_inc_sequence_number` is called by the request functions only, `_q` is
+                                       created in `__init__` and mentioned in `_send_and_receive` only, nothing reaches
+                                       attributes by computed name — establish_session, close_session, ping … touch the
+                                       state the requests share through the requests they make and in no other way
+  * `ops_are_requests`, `ops_counter_never_reset`, `ops_wire_sequence_numbers`, `ops_seq_distinct`
+                                     — the operation alphabet of one Rmcp object (Model/RmcpOps.lean: request,
+                                       establish_session = ping + a prefix of the handshake requests, close_session = 0 or
+                                       1 request), ANY history, ANY ping, ANY point at which a handshake stops: the history
+                                       is a run of requests; the counter after it is the counter before it plus the number
+                                       of requests made, mod 64 (the wrap is the only "reset"); request number k of the
+                                       history carries start + k + 1 (mod 64) in every copy written; any two requests less
+                                       than 64 requests apart - in particular two consecutive ones, on either side of an
+                                       establish_session / close_session or inside one - carry different numbers
+  * `ops_late_reply_never_returned`  — … and data returned by request number j of a history comes from an intact reply
+                                       to THAT request which is NOT a reply to any of the 63 requests before it, whatever
+                                       they asked and whichever operation made them
   * `finds_match_after_noise_requeue_counterexample`, `no_poisoning_requeue_counterexample`
                                      — the loop before fixes/C04-1.diff violated both progress clauses
   * `finds_match_after_timeouts`, `finds_match_after_noise`
@@ -74,6 +92,8 @@
 -/
 import PyIpmi.Lemmas.LoopsSound
 import PyIpmi.Lemmas.LoopsProgress
+import PyIpmi.Lemmas.LoopsOps
+import PyIpmi.Gen.IfaceState04
 namespace PyIpmi.Props.C04
 open PyIpmi PyIpmi.Loops PyIpmi.Spec.Attribution
 
@@ -514,6 +534,84 @@ theorem probe_reuses_seq_asShipped_counterexample :
   revert this
   decide
 
+/-! ## "For all sequences of requests on one interface object": the operations that make requests -/
+
+/-- Who touches the state one request hands to the next, read from the working tree on every run: in each of the
+three modules an attribute named `next_sequence_number` is stored by the constructor and by `_inc_sequence_number`
+and by NOTHING else (no `self.next_sequence_number = 0` in establish_session, close_session, open …), and
+`_inc_sequence_number` is called by the functions that put a request on the wire only; RMCP: `_q` is created in the
+constructor and mentioned in `_send_and_receive` only; `_send_and_receive` is reached through the two public request
+functions (which establish_session / close_session use); no function reaches attributes by a computed name. -/
+theorem source_state_writers :
+    Gen.IfaceState04.rmcpSeqWriters = ["Rmcp.__init__", "Rmcp._inc_sequence_number"] ∧
+    Gen.IfaceState04.rmcpIncCallers = ["Rmcp._send_and_receive"] ∧
+    Gen.IfaceState04.rmcpQueueWriters = ["Rmcp.__init__"] ∧
+    Gen.IfaceState04.rmcpQueueUsers = ["Rmcp.__init__", "Rmcp._send_and_receive"] ∧
+    Gen.IfaceState04.rmcpRequestCallers = ["Rmcp.send_and_receive_raw", "Rmcp.send_and_receive"] ∧
+    Gen.IfaceState04.rmcpDynamic = [] ∧
+    Gen.IfaceState04.ipmbdevSeqWriters = ["IpmbDev.__init__", "IpmbDev._inc_sequence_number"] ∧
+    Gen.IfaceState04.ipmbdevIncCallers = ["IpmbDev.is_ipmc_accessible", "IpmbDev._send_and_receive"] ∧
+    Gen.IfaceState04.ipmbdevDynamic = [] ∧
+    Gen.IfaceState04.aardvarkSeqWriters = ["Aardvark.__init__", "Aardvark._inc_sequence_number"] ∧
+    Gen.IfaceState04.aardvarkIncCallers = ["Aardvark.is_ipmc_accessible", "Aardvark._send_and_receive"] ∧
+    Gen.IfaceState04.aardvarkDynamic = [] :=
+  ⟨rfl, rfl, rfl, rfl, rfl, rfl, rfl, rfl, rfl, rfl, rfl, rfl⟩
+
+/-- Any history of operations on one Rmcp object - requests, establish_session (whatever the ping does to the
+socket, wherever the handshake stops), close_session - is a run of `_send_and_receive` calls, each starting with
+the counter and `_q` the one before it left. -/
+theorem ops_are_requests (cfg : Cfg) (st : IfState) (ops : List Op) :
+    Trace cfg st (runOps cfg st ops).2 (runOps cfg st ops).1 := runOps_trace cfg st ops
+
+/-- NO operation resets the counter: after any history it stands at "before + number of requests made", modulo
+64 - the wrap of `_inc_sequence_number` is the only way back to a smaller number. -/
+theorem ops_counter_never_reset (cfg : Cfg) (st : IfState) (ops : List Op) :
+    (runOps cfg st ops).1.nextSeq % 64 = (st.nextSeq + (runOps cfg st ops).2.length) % 64 :=
+  (runOps_trace cfg st ops).counter
+
+/-- Request number `i` (from 0) of any history is written at least once, and every copy carries sequence number
+`start + i + 1` (mod 64), whichever operation made it. -/
+theorem ops_wire_sequence_numbers (cfg : Cfg) (st : IfState) (ops : List Op) (i : Nat) (s : Step)
+    (hs : (runOps cfg st ops).2[i]? = some s) :
+    s.st.nextSeq = (st.nextSeq + i + 1) % 64 ∧ s.tx ≠ [] ∧ ∀ tx ∈ s.tx, byte tx 4 / 4 = (st.nextSeq + i + 1) % 64 := by
+  obtain ⟨st0, req, evs, rfl, h0⟩ := (runOps_trace cfg st ops).get i s hs
+  obtain ⟨h1, _, h3, h4⟩ := seq_distinct_rmcp cfg st0 req evs
+  have he : (st0.nextSeq + 1) % 64 = (st.nextSeq + i + 1) % 64 := by omega
+  refine ⟨by rw [h1, he], h3, fun tx htx => by rw [h4 tx htx, he]⟩
+
+/-- "Consecutive requests carry different sequence numbers", for requests on either side of (or inside) an
+establish_session / close_session too - and more: any two requests of a history that are less than 64 requests
+apart carry different numbers. -/
+theorem ops_seq_distinct (cfg : Cfg) (st : IfState) (ops : List Op) (i j : Nat) (a b : Step)
+    (ha : (runOps cfg st ops).2[i]? = some a) (hb : (runOps cfg st ops).2[j]? = some b)
+    (hij : i < j) (hnear : j - i < 64) : a.st.nextSeq ≠ b.st.nextSeq := by
+  rw [(ops_wire_sequence_numbers cfg st ops i a ha).1, (ops_wire_sequence_numbers cfg st ops j b hb).1]
+  omega
+
+/-- "Data from late replies to earlier requests is never returned as the answer", over any history of
+operations: what request number `j` returns is the data of an intact reply to THAT request (its command, network
+function, LUN and the number `start + j + 1`), carried by a frame it could read - and that reply is not a reply to
+any of the 63 requests before it (`i < j < i + 64`), whatever they asked for and whichever operation - a failed
+establish_session, say - made them.  (`rmcp_ignore_rq_seq` off: with it the user has asked for the sequence number
+not to be compared.) -/
+theorem ops_late_reply_never_returned (cfg : Cfg) (hseq : cfg.ignoreRqSeq = false) (st : IfState) (ops : List Op)
+    (j : Nat) (b : Step) (hb : (runOps cfg st ops).2[j]? = some b) (d : Frame) (hd : b.out = .ok d) :
+    ∃ st0 req evs, b = rmcpRequest cfg st0 req evs ∧
+      (req.netfn % 2 = 0 →
+        ∃ dg ∈ st0.queue ++ framesOf (pending cfg st0 evs), ∃ f, Carries (!cfg.cmdOnly) dg f ∧
+          isReplyTo true (ridOf req ((st.nextSeq + j + 1) % 64)) f ∧ d = replyData f ∧
+          ∀ i, i < j → j - i < 64 → ∀ req' : Req, ¬ isReplyTo true (ridOf req' ((st.nextSeq + i + 1) % 64)) f) := by
+  obtain ⟨st0, req, evs, rfl, h0⟩ := (runOps_trace cfg st ops).get j b hb
+  refine ⟨st0, req, evs, rfl, fun hn => ?_⟩
+  obtain ⟨dg, hdg, f, hc, hr, hdd⟩ := attribution_sound_rmcp cfg st0 req evs d hn hd
+  have he : (st0.nextSeq + 1) % 64 = (st.nextSeq + j + 1) % 64 := by omega
+  rw [hseq, he] at hr
+  refine ⟨dg, hdg, f, hc, hr, hdd, fun i hij hnear req' hr' => ?_⟩
+  have h1 : byte f 4 / 4 = (st.nextSeq + j + 1) % 64 := hr.2.2.2.2.2.2 rfl
+  have h2 : byte f 4 / 4 = (st.nextSeq + i + 1) % 64 := hr'.2.2.2.2.2.2 rfl
+  rw [h1] at h2
+  omega
+
 /-! ## Progress: "a matching reply is found …", "frames received during one request never prevent …" -/
 
 /-- "A matching reply is found even when up to the configured number of unrelated frames arrive before
@@ -766,5 +864,20 @@ example : (i2cRequest I2cCfg.ipmbdev 0 { wReq with rsSa := 0x72, routing := [⟨
       { wReq with rsSa := 0x72, routing := [⟨0x20, 0x82, 7⟩, ⟨0x20, 0x72, 0⟩] } []).tx.head?
       = some [0x72, 0x18, 0x76, 0x20, 0x04, 0x01, 0xdb] ∧
     i2cRefuses I2cCfg.ipmbdev wReq.routing = false ∧ i2cRefuses I2cCfg.aardvark [⟨0x20, 0x72, 0⟩] = false := by decide
+
+/-- The history of seeded change C04f on the model: establish_session whose first request gets no answer
+(max_retries = 1: two time-outs), establish_session again - the LATE reply to the first attempt's request arrives in
+front of the genuine one.  Two requests, numbers 1 and 2; the second returns the genuine reply's data. -/
+example :
+    let caps1 : Req := { wReq with cmd := 0x38, payload := [0x0e, 4] }
+    let caps2 : Req := { wReq with cmd := 0x38, payload := [0x0e, 2] }
+    let late := [0x81, 0x1c, 0x63, 0x20, 0x04, 0x38, 0x00, 0x01, 0x04, 0, 0, 0, 0, 0, 0, 0x9f]
+    let genuine := [0x81, 0x1c, 0x63, 0x20, 0x08, 0x38, 0x00, 0x01, 0x01, 0, 0, 0, 0, 0, 0, 0x9e]
+    let pong : Ping := fun s => (s, true)
+    let r := runOps { maxRetries := 1 } ⟨0, [], []⟩
+      [.establish pong [(caps1, [.timeout, .timeout])] (fun _ _ => true),
+       .establish pong [(caps2, [.frame late, .frame genuine])] (fun _ _ => false)]
+    r.2.map (fun s => s.st.nextSeq) = [1, 2] ∧ r.2.map (fun s => s.out) = [.retryError, .ok (replyData genuine)] ∧
+    r.1.nextSeq = 2 := by decide
 
 end PyIpmi.Props.C04
